@@ -621,6 +621,78 @@ theorem ep_stale_generation_not_handed_out (s : St) (d c e : Nat)
 example : (getOrCreate (invalBump (getOrCreate init 0 false 1000 none none 0 .ok).1 0) 0 false 1000 none none 0 .ok).2
     = .created 1 := by decide
 
+/-- **A handed-out endpoint is open.**  Along every history of pool operations — the split steps of
+`InvalidateDialerNetworkType`, `retire` and a creation included — in which callers use `Remove(key,
+ue)` with the key `ue` is (or was) pooled under and a bare `Close()` only on an endpoint that has
+left the table (`WfRun`; this is what `handlePkt` and the pool's own paths do), the table maps a
+key only to an open endpoint of that key; hence whatever `GetOrCreate` or `Get` hands out has not
+been closed. -/
+theorem ep_handed_out_is_open (ops : List Op) (hw : WfRun init ops)
+    (k : Nat) (sym : Bool) (nat : Nat) (owner drain : Option Nat) (d : Nat) (out : DialOutcome) (e : Nat)
+    (h : (getOrCreate (run init ops) k sym nat owner drain d out).2 = .hit e ∨ EP.get (run init ops) k = some e) :
+    ((run init ops).eps e).closed = false ∧ ((run init ops).eps e).key = k := by
+  have hP := run_poolOk ops init poolOk_init hw
+  have hiff := ep_handout_iff_usable (run init ops) k sym nat owner drain d out e
+  have hp : (run init ops).pool k = some e := by
+    cases h with
+    | inl h => exact (hiff.1.mp h).1
+    | inr h => exact (hiff.2.mp h).1
+  exact ⟨(hP k e hp).2.2, (hP k e hp).2.1⟩
+
+example : WfRun init [.goc 0 false 1000 none none 0 .ok, .write 0 .err, .goc 0 false 1000 none none 0 .ok, .remove 0 1] ∧
+    EP.get (run init [.goc 0 false 1000 none none 0 .ok, .write 0 .err, .goc 0 false 1000 none none 0 .ok]) 0 = some 1 := by
+  decide
+
+/-- **The reverse indexes hold only open endpoints.**  Along every history in which an endpoint is
+registered while it is still open (`RegRun`: the code registers inside the critical section of the
+table write, so nobody can have closed the endpoint yet), whatever sits in a dialer's or a
+transport's bucket has not been closed: `Close()` always takes the endpoint out again, nothing is
+left behind for `InvalidateDialerNetworkType` to find after the endpoint is gone. -/
+theorem ep_index_holds_only_open_endpoints (ops : List Op) (hr : RegRun init ops) (e : Nat)
+    (h : ((run init ops).eps e).registered = true) : ((run init ops).eps e).closed = false :=
+  run_idxOk ops init idxOk_init hr e h
+
+example : RegRun init [.prepCreate 0 none 0, .publish { createRecord init 0 false 1000 none none 0 with registered := false },
+    .register 0, .write 0 .err] ∧
+    ((run init [.prepCreate 0 none 0, .publish { createRecord init 0 false 1000 none none 0 with registered := false },
+      .register 0]).eps 0).registered = true := by decide
+
+/-- Registering *after* the table write (a separate step, as the code did before the fix) is not
+safe: a write through the freshly published endpoint fails and closes it, the creator registers it
+afterwards, and the closed endpoint stays in its dialer's bucket. -/
+theorem late_registration_leaks :
+    ((run init [.prepCreate 0 none 0, .publish { createRecord init 0 false 1000 none none 0 with registered := false },
+      .write 0 .err, .register 0]).eps 0).registered = true ∧
+    ((run init [.prepCreate 0 none 0, .publish { createRecord init 0 false 1000 none none 0 with registered := false },
+      .write 0 .err, .register 0]).eps 0).closed = true := by decide
+
+/-- **The end of a transport retires everything riding on it.**  In every reachable state, when the
+transport of dialer `d` ends, every registered endpoint whose conn rides on it — traffic or not — is
+dead and closed afterwards and the table no longer points to it. -/
+theorem ep_transport_end_retires_riders (ops : List Op) (hw : WfRun init ops) (d e : Nat)
+    (he : e < (run init ops).neps) (hr : ((run init ops).eps e).registered = true)
+    (ht : ((run init ops).eps e).transport = transportId (run init ops) d) :
+    ((transportDone (run init ops) d).eps e).dead = true ∧ ((transportDone (run init ops) d).eps e).closed = true ∧
+    ∀ k, (transportDone (run init ops) d).pool k ≠ some e :=
+  transportDone_spec (run_poolOk ops init poolOk_init hw) d e he hr ht
+
+example : ((run init [.goc 0 false 1000 none none 0 .ok, .write 0 .ok]).eps 0).transport
+    = transportId (run init [.goc 0 false 1000 none none 0 .ok, .write 0 .ok]) 0 ∧
+    ((run init [.goc 0 false 1000 none none 0 .ok, .write 0 .ok]).eps 0).registered = true ∧
+    (run init [.goc 0 false 1000 none none 0 .ok, .write 0 .ok, .transportDone 0]).pool 0 = none ∧
+    -- the next endpoint of the dialer rides on a new transport
+    ((run init [.goc 0 false 1000 none none 0 .ok, .write 0 .ok, .transportDone 0, .goc 0 false 1000 none none 0 .ok]).eps 1).transport
+      ≠ ((run init [.goc 0 false 1000 none none 0 .ok, .write 0 .ok]).eps 0).transport := by decide
+
+/-- An endpoint that is registered only after its transport has ended is retired on the spot (the
+watcher of the bucket it enters fires at once). -/
+theorem ep_register_on_ended_transport_retires (s : St) (e : Nat)
+    (h : (s.eps e).transport ≠ transportId s (s.eps e).dialer) :
+    ((register s e).eps e).dead = true ∧ ((register s e).eps e).closed = true := by
+  unfold register
+  rw [if_neg h]
+  exact ⟨(retire_spec _ e).1, (retire_spec _ e).2.1⟩
+
 /-- `retire()` leaves the endpoint dead and closed, and the pool no longer maps its key to it. -/
 theorem ep_retire_spec (s : St) (e : Nat) :
     ((retire s e).eps e).dead = true ∧ ((retire s e).eps e).closed = true ∧
